@@ -284,4 +284,23 @@ def fracVolumesVLW (ρi ρw ρ vlw : α) : α × α :=
 /-- `frac_volume` from density and the liquid fraction of the ice+water phase -/
 def fracVolumeLW (ρi ρw ρ lw : α) : α := ρ / (ρi * (1 - lw) + ρw * lw)
 end
+
+section
+variable {α : Type} [Add α] [Sub α] [Mul α] [Div α] [OfNat α 1] [OfNat α 0] [OfScientific α] [LT α] [LE α]
+  [DecidableRel (fun a b : α => a < b)] [DecidableRel (fun a b : α => a ≤ b)]
+
+/-- the rounding clamp of `compute_frac_volumes`: `if 1 < frac_volume < 1.01: frac_volume = 1` - a value a hair *above* one is one,
+    anything else is left as it is -/
+def clampFrac (f : α) : α := if 1 < f ∧ f < 1.01 then 1 else f
+
+/-- the whole of `SnowLayer.compute_frac_volumes` (either form): clamp, then the two range assertions (`none` = AssertionError) -/
+def computeFracVolumes (f lw : α) : Option (α × α) :=
+  let f' := clampFrac f
+  if 0 ≤ f' ∧ f' ≤ 1 then (if 0 ≤ lw ∧ lw ≤ 1 then some (f', lw) else none) else none
+
+def computeFracVLW (ρi ρw ρ vlw : α) : Option (α × α) :=
+  computeFracVolumes (fracVolumesVLW ρi ρw ρ vlw).1 (fracVolumesVLW ρi ρw ρ vlw).2
+
+def computeFracLW (ρi ρw ρ lw : α) : Option (α × α) := computeFracVolumes (fracVolumeLW ρi ρw ρ lw) lw
+end
 end Smrt
